@@ -13,3 +13,6 @@ pub use server::{AsyncConnection, ExitError, run_ls};
 #[macro_use]
 extern crate rust_i18n;
 rust_i18n::i18n!("./locales", fallback = "en");
+
+#[cfg(emmyluals_emmylua_analyzer_rust_verif)]
+pub use server::verif_serve;
